@@ -466,6 +466,17 @@ func genC02(o *cw) {
 			}
 		}
 	}
+	// node-set against node-set inside a predicate: several left nodes, the first without partner
+	mv2 := o.doc(doc.Parse(`r(e(a("1"),a("2"),a("3"),b("9"),b("3")),e(a("5"),b("5")),e(a("1"),a("2"),b("7")),e(a("4"),a("7"),b("7"),b("8")),e(b("1")),e(a("1")),e(a("2"),a("2"),b("2"),b("2")))`), false)
+	for _, l := range []string{"a", "b", "*", "a | b"} {
+		for _, r := range []string{"a", "b", "*", "../e/b"} {
+			for _, op := range []string{"=", "!="} {
+				o.c("selall", mv2, "/", "-", "//e["+l+" "+op+" "+r+"]", "", "set-set-pred")
+				o.c("selall", mv2, "/", "-", "//e[not("+l+" "+op+" "+r+")]", "", "set-set-pred")
+				o.c("evalall", mv2, "/", "-", "count(//e["+l+" "+op+" "+r+"])", "", "set-set-pred")
+			}
+		}
+	}
 	for i := 0; i < 700*o.tier; i++ {
 		var p gen.Ex
 		switch g.r.Intn(4) {
